@@ -136,6 +136,11 @@ Definition start_scope (i : N) (p : path) : bool :=
   | _ => true
   end.
 
+(** destination "any core of ISD [dst_isd]" (wildcard AS number): some core of that ISD is
+    the source itself or joinable from it *)
+Definition joinable_any (src dst_isd : N) (cores : list N) (segs : list (list N)) : bool :=
+  existsb (fun c => (N.shiftr c 48 =? dst_isd) && ((c =? src) || joinable src c cores segs)) cores.
+
 (** ** Which segment lookups a path between two ASes can need (SCION path-combination rules):
     a path is one to three segment uses -- [Up] (a non-core segment climbed from the source),
     [CoreS], [Down] (a non-core segment descended to the destination) -- in that order.  A
